@@ -282,7 +282,10 @@ def r5_sharing(chk: Check):
         a, b = sorted(loops, key=lambda n: n.lineno)
         done_a = [x for x in gl.live if x.kind == "branch" and x.extra["test"] is a and x.extra["polarity"] == "done"]
         chk.require(any(gl.dominates(x, b) for x in done_a), chk.fkey(lo, "creation completes before filling"), "field filling starts before every object exists (forward / cyclic references would fail)", chk.loc(lo.module, lo.node))
-        creates = [s for s in ast.walk(a.ast) if isinstance(s, ast.Assign) and src(s.targets[0]) == "objects[definition['id']]"]
+        rdl = ReachingDefs(gl)
+        inside = {id(s) for s in ast.walk(a.ast)}
+        creates = [n for n in gl.live if n.kind == "stmt" and isinstance(n.ast, ast.Assign) and id(n.ast) in inside and isinstance(n.ast.targets[0], ast.Subscript)
+                   and dotted(n.ast.targets[0].value) == "objects" and rdl.canon(n.ast.targets[0].slice, n) == "definition['id']"]
         chk.require(len(creates) == 1, chk.fkey(lo, "objects table"), "objects must be registered in the `objects` table by id", chk.loc(lo.module, lo.node))
 
 
